@@ -180,6 +180,9 @@ class Polygon(Shape2D):
 
         if test_simple:
             planar_vertices, _ = _align_points_by_normal(self._normal, self._vertices)
+            # The intersection test uses an absolute tolerance, so make it independent
+            # of where the polygon sits: simplicity is invariant under translation.
+            planar_vertices = planar_vertices - np.mean(planar_vertices, axis=0)
             if not _is_simple(planar_vertices):
                 raise ValueError(
                     "The vertices must be passed in counterclockwise order. "
